@@ -156,10 +156,7 @@ class Type3Tag(nfc.tag.Tag):
         # class that is returned by the Tag.ndef attribute.
 
         def _read_attribute_data(self):
-            try:
-                data = self._tag.read_from_ndef_service(0)
-            except Type3TagCommandError:
-                return None
+            data = self._tag.read_from_ndef_service(0)
 
             if sum(data[0:14]) != unpack(">H", data[14:16])[0]:
                 log.debug("ndef attribute data checksum error")
@@ -198,7 +195,10 @@ class Type3Tag(nfc.tag.Tag):
                 except Type3TagCommandError:
                     return None
 
-            attributes = self._read_attribute_data()
+            try:
+                attributes = self._read_attribute_data()
+            except Type3TagCommandError:
+                attributes = None
             if attributes is None:
                 log.debug("found no attribute data (maybe checksum error)")
                 return None
